@@ -5,6 +5,8 @@ NOTES = ("All checks are property-based tests (pgregory.net/rapid v1.3.0 generat
 ENGINES = [
     {"name": "kvx", "path": "harness/kvx", "serves_properties": ["C06", "C07", "C11", "C12", "C13", "C16", "C17"],
      "kind_free_text": "real kv.DB / Pebble KV driven by rapid generators against the sequential reference model in harness/model"},
+    {"name": "leaderx", "path": "harness/leaderx", "serves_properties": ["C08", "C14", "C15"],
+     "kind_free_text": "real LeaderController (RF=1, real WAL and Pebble through wrapping factories with gates) driven by rapid state machines"},
     {"name": "walx", "path": "harness/walx", "serves_properties": ["C09", "C10"],
      "kind_free_text": "rapid state machine + crash/corruption image generator over the real WAL against a list model"},
 ]
@@ -73,5 +75,27 @@ META = {
         "level_text": "Generated write histories; each stored batch compared with the model's net effect; resumable reads and "
                       "retention-bounded trimming under an injected clock.",
         "level_note": "DB level in this check; one listed finding (key entry replaced by a range entry with the same start key).",
+    },
+    "C08": {
+        "engine": "leaderx", "technique": "concurrent property testing with schedule perturbation + model-based state machine on the ack tracker",
+        "design_ref": "DESIGN.md 4.3, 5 C08",
+        "level_text": "Generated writer populations against a real leader with injected delays at the allocation/append boundary, "
+                      "and tens of thousands of tracker histories against the reference commit rule.",
+        "level_note": "Real goroutines: schedules are perturbed, not enumerated. One listed finding (RF=1 tracker initial commit offset).",
+    },
+    "C14": {
+        "engine": "leaderx", "technique": "model-based property testing with a gate on the session cleanup's key listing",
+        "design_ref": "DESIGN.md 4.3, 5 C14",
+        "level_text": "Generated session/write/leader-change histories on a real leader; ownership model compared with a full dump "
+                      "after every session end. One listed finding (cleanup deletes a record taken over after the listing), "
+                      "re-confirmed by a scripted schedule each run.",
+        "level_note": "Expiry timing needs real 2 s timers and is exercised separately when built; hangs are inconclusive.",
+    },
+    "C15": {
+        "engine": "leaderx", "technique": "model-based property testing (index entries derived from live records vs sorted reference)",
+        "design_ref": "DESIGN.md 4.3, 5 C15",
+        "level_text": "Generated write histories with neighbouring index names; every index query path compared with a sorted "
+                      "reference restricted to that index.",
+        "level_note": "Leader level (Read/List/RangeScan of the real LeaderController).",
     },
 }
